@@ -106,6 +106,18 @@ Proof.
   split; [intros H; now rewrite H1 | intros Ha Hb; now rewrite H2].
 Qed.
 
+Theorem hash1_error_iff files open :
+  ((exists s, hash1 sha files open = Ok s) <->
+   (forall f, In f files -> has_newline f = false /\ open f <> None)) /\
+  (forall good f rest,
+     sort_strs files = good ++ f :: rest ->
+     (forall g, In g good -> has_newline g = false /\ open g <> None) ->
+     (has_newline f = true -> hash1 sha files open = ErrNewline) /\
+     (has_newline f = false -> open f = None -> hash1 sha files open = ErrOpen f)).
+Proof.
+  split; [apply hash1_ok_iff|]. intros good f rest Hs Hg. now apply (hash1_first_error files open good f rest).
+Qed.
+
 Theorem hash1_not_outside files open : hash1 sha files open <> Outside.
 Proof.
   unfold hash1. pose proof (summary_not_outside (sort_strs files) open) as H.
